@@ -74,6 +74,10 @@ def op_term(o):
         return 'WReopen'
     if k == 'clear':
         return '(WClear %d%%nat)' % o[1]
+    if k == 'moveaway':
+        return '(WMoveAway %d%%nat)' % o[1]
+    if k == 'lbusy':
+        return None       # harness only
     if k == 'open':
         return 'WOpen'
     if k == 'close':
@@ -84,7 +88,7 @@ def op_term(o):
 def world_term(job, incap, last):
     cfgs, strip, nopen, ops = job
     return '(%s, %s, %s, %d%%nat, %s, %s)' % (coq_list([cfg_term(c) for c in cfgs]), blit(strip), blit(incap), nopen,
-                                        coq_list([op_term(o) for o in ops]), last)
+                                        coq_list([t for t in (op_term(o) for o in ops) if t is not None]), last)
 
 
 def _json_job(job):
@@ -133,7 +137,7 @@ def gen_histories(chk, B, E):
             ('write', 0, 'stdout', None), ('write', 1, 'stderr', None), ('write', 1, 'stdout', None),
             ('read', 0, 'stdout', 1000), ('read', 1, 'stdout', 1),
             ('exit', 0), ('reap', 0), ('exit', 1), ('open',), ('close', 3), ('reap', 1),
-            ('reopen',), ('clear', 0), ('clear', 1)]
+            ('reopen',), ('clear', 0), ('clear', 1), ('moveaway', 0)]
 
     def fill(seq, variant):
         out = []
@@ -271,6 +275,62 @@ def gen_reapfault(chk, B, E):
     return jobs
 
 
+CF_LISTEN = [(False, 0, 0, False, False, False, None, False, True), (True, 0, 0, False, False), (False, 0, 4, False, False)]
+
+
+def gen_moveaway(chk, B, E):
+    """External rotation: the log file is renamed away, then SIGUSR2 asks for a reopen -- at every cut
+    point of streams with capture sections (so also between BEGIN and END), then more output.  The file
+    at the configured path must hold exactly what was logged after the reopen."""
+    streams = [b'ab' + B + b'xyz' + E + b'cd\n', b'a' + B + b'x' + E + b'm' + B + b'yy' + E + b'z\n',
+               b'0123456789' * 3 + B + b'Q' * 30 + E + b'tail\n']
+    jobs = []
+    for s in streams:
+        for cfgs, p, wch, rch in ((CF_DRAIN, 0, 'stdout', 'stdout'), (CF_DRAIN, 2, 'stderr', 'stderr'),
+                                  (CF_PLAIN, 0, 'stdout', 'stdout'), (CF_DRAIN_EV, 1, 'stdout', 'stdout')):
+            for c in range(1, len(s)):
+                ops = [('spawn', p, 'ok'), ('write', p, wch, s[:c]), ('read', p, rch, 3000), ('moveaway', p), ('reopen',),
+                       ('write', p, wch, s[c:])]
+                if c % 2:
+                    ops.append(('read', p, rch, 3000))
+                ops += [('exit', p), ('reap', p)]
+                jobs.append(('moveaway', (cfgs, False, 3, ops)))
+    return jobs
+
+
+def gen_listener(chk, B, E):
+    """Event listener processes: stdout is a PEventListenerDispatcher with a child log (every byte
+    read is logged once, through stripEscapes per read when strip_ansi), stderr an ordinary
+    dispatcher.  Reads cut inside the READY / RESULT protocol tokens."""
+    jobs = []
+
+    def pieces(data, c):
+        return [data[:c], data[c:]] if 0 < c < len(data) else [data]
+    ready, result = b'READY\n', b'RESULT 2\nOK'
+    for strip in (False, True):
+        for c1 in range(0, len(ready)):
+            for c2 in range(0, len(result)):
+                ops = [('spawn', 0, 'ok')]
+                for part in pieces(ready, c1):
+                    ops += [('write', 0, 'stdout', part), ('read', 0, 'stdout', 3000)]
+                ops.append(('lbusy', 0))
+                for part in pieces(result, c2):
+                    ops += [('write', 0, 'stdout', part), ('read', 0, 'stdout', 3000)]
+                ops += [('write', 0, 'stderr', b'listener stderr\n'), ('write', 0, 'stdout', ready)]
+                if (c1 + c2) % 2:
+                    ops.append(('read', 0, 'stdout', 3))
+                ops += [('exit', 0), ('reap', 0)]
+                jobs.append(('listener', (CF_LISTEN, strip, 3, ops)))
+        # spurious output (-> UNKNOWN), ANSI escapes in a listener's stdout, fragmented reads
+        for data in (b'XREADY\nmore', b'READY\nchatter', b'\x1b[1mREADY\n\x1b[0m', b'REA\x1b[', b'READY\nRESULT x\n'):
+            for n in (1, 2, 3, 1000):
+                ops = [('spawn', 0, 'ok'), ('write', 0, 'stdout', data)]
+                ops += [('read', 0, 'stdout', n)] * (len(data) // n + 1)
+                ops += [('exit', 0), ('reap', 0), ('spawn', 0, 'ok'), ('write', 0, 'stdout', ready), ('exit', 0), ('reap', 0)]
+                jobs.append(('listener', (CF_LISTEN, strip, 3, ops)))
+    return jobs
+
+
 CF_ROT = [(False, 0, 0, False, False, False, (16, 2)), (True, 0, 0, False, False, False, (16, 1)),
           (False, 10, 0, False, False, False, (16, 0))]
 
@@ -400,7 +460,8 @@ def _run(chk, wd, proved):
     import c08_disp as H
     import c07_seam as S
     B, E = H.tokens()
-    hjobs = (gen_drain(chk, B, E) + gen_reapfault(chk, B, E) + gen_rotate(chk, B, E) + gen_bigdrain(chk, B, E)
+    hjobs = (gen_drain(chk, B, E) + gen_reapfault(chk, B, E) + gen_moveaway(chk, B, E) + gen_listener(chk, B, E)
+             + gen_rotate(chk, B, E) + gen_bigdrain(chk, B, E)
              + gen_histories(chk, B, E))
     corpus = _load_corpus()
     hjobs = [('corpus', j) for j in corpus] + hjobs
@@ -511,8 +572,8 @@ def _run(chk, wd, proved):
     cov['rule'] = ('evaluations = stripEscapes strings + single-channel runs + multi-process histories; exhaustive: every string '
                    'of <= 6 symbols over {ESC,[,m,3,x} (thorough: +A, <= 7) for stripEscapes; every fragmentation of every stream of <= 3 pieces '
                    '(<= 4 over 5 pieces) of escape/tag pieces with strip_ansi on; every operation sequence of length <= %d over an '
-                   '21-operation alphabet (3 processes: spawn ok / fork failure / pipe failure, writes, fragmented reads, exit, '
-                   'reap, unrelated open/close, log reopen, clearProcessLogs) followed by a flush-and-reap epilogue; every cut point of 6 streams with 0-2 capture '
+                   '22-operation alphabet (3 processes: spawn ok / fork failure / pipe failure, writes, fragmented reads, exit, '
+                   'reap, unrelated open/close, log reopen, clearProcessLogs, external move-away of the log) followed by a flush-and-reap epilogue; every cut point of 6 streams with 0-2 capture '
                    'sections where the part after the cut is still in the pipe at reap (capture on stdout / through redirect / on '
                    'stderr / off); 1, 8191, 8192, 8193, 40000, 65536 bytes still unread in the stdout and/or stderr pipe at reap '
                    '(pipe capacity 64 KiB; the seam read honours the requested size); a read error (EIO/EBADF) on one channel during the '
